@@ -41,6 +41,8 @@ type ScriptSub struct {
 	// EndAfterScript: the subscription ends on its own (its channel is closed) once the script is exhausted,
 	// like a transport whose stream has ended
 	EndAfterScript bool
+	// FailSubscribes: that many Subscribe calls are rejected (ErrScriptSubscribe) before the first one is accepted
+	FailSubscribes int
 	// CtxFor, when set, derives the context of a delivered copy from the subscription context
 	// (a transport that preserves or decorates message contexts)
 	CtxFor func(ctx context.Context, m *message.Message) context.Context
@@ -56,6 +58,8 @@ type ScriptSub struct {
 	chans          []chan *message.Message
 }
 
+var ErrScriptSubscribe = errors.New("scripted subscribe failure")
+
 func NewScriptSub(name string, script map[string][]*message.Message) *ScriptSub {
 	return &ScriptSub{Name: name, Script: script, closing: make(chan struct{}), Subscribed: map[string]int{}}
 }
@@ -66,6 +70,10 @@ func (s *ScriptSub) Subscribe(ctx context.Context, topic string) (<-chan *messag
 	s.SubscribeCalls++
 	if s.closed {
 		return nil, errors.New("script subscriber closed")
+	}
+	if s.FailSubscribes > 0 {
+		s.FailSubscribes--
+		return nil, ErrScriptSubscribe
 	}
 	s.Subscribed[topic]++
 	ch := make(chan *message.Message)
